@@ -390,6 +390,13 @@ class Manager:
     def removeHandler(self, method, event=None):
         names = method.names if event is None else [event]
 
+        if not names:
+            # catch-all handlers are kept in _globals or under '*' (see addHandler)
+            if method.channel == '*':
+                self._globals.discard(method)
+            else:
+                names = ['*']
+
         for name in names:
             self._handlers[name].remove(method)
             if not self._handlers[name]:
